@@ -72,12 +72,214 @@ Proof.
     destruct (mrel m r k') eqn:Hm; [|reflexivity]. exfalso.
     rewrite <- (mrel_congr m r k k' Ek) in Hm.
     unfold tw_remove, rm_fwd, rm_bwd in H.
-    destruct (remove_item Z.eqb vals_eqb always key_hashable (right_kind cols) (fwd m) r k) as [f1|] eqn:E1.
+    destruct (remove_item Z.eqb vals_eqb always key_hashable (right_kind cols) (@fwd Z (list val) m) r k) as [f1|] eqn:E1.
     + cbv beta iota zeta delta [negb] in H.
-      destruct (remove_item vals_eqb Z.eqb key_hashable always KLookupSet (bwd m) k r) as [b1|] eqn:E2;
+      destruct (remove_item vals_eqb Z.eqb key_hashable always KLookupSet (@bwd Z (list val) m) k r) as [b1|] eqn:E2;
         [cbv beta iota zeta in H; inversion H|].
       apply remove_item_raise in E2. pose proof (mrel_hashable cols m r k I Hm) as Hh.
       destruct E2 as [E2|[_ E2]]; [congruence|discriminate].
     + apply remove_item_raise in E1. pose proof (mrel_hashable cols m r k I Hm) as Hh.
       destruct E1 as [E1|[_ E1]]; [discriminate|congruence].
+Qed.
+
+Lemma bsoc_refl : forall m, bsoc m m.
+Proof. intros. apply soc_refl. Qed.
+Lemma bsoc_trans : forall a b c, bsoc a b -> bsoc b c -> bsoc a c.
+Proof. intros a b c. apply soc_trans. Qed.
+
+Lemma remove_each_spec : forall cols ks m r, lm_inv cols m ->
+  let m' := remove_each cols m r ks in
+  lm_inv cols m' /\ bsoc m m' /\
+  forall r' k', mrel m' r' k' = mrel m r' k' && negb (Z.eqb r r' && memb vals_eqb k' ks).
+Proof.
+  induction ks as [|k ks IH]; intros m r I; cbn [remove_each].
+  - split; [exact I|split; [apply bsoc_refl|]]. intros. cbn. now rewrite andb_false_r, andb_true_r.
+  - destruct (lm_remove cols m r k) as [m1 o] eqn:E. cbn [fst].
+    destruct (lm_remove_spec cols m r k m1 o I E) as [I1 [S1 R1]].
+    destruct (IH m1 r I1) as [I2 [S2 R2]].
+    split; [exact I2|split; [eapply bsoc_trans; eauto|]].
+    intros r' k'. rewrite R2, R1. cbn [memb].
+    destruct (Z.eqb r r'); cbn [andb negb]; [|now rewrite !andb_true_r].
+    destruct (vals_eqb k k'); cbn [negb]; [now rewrite !andb_false_r|now rewrite andb_true_r].
+Qed.
+
+Lemma insert_each_spec : forall cols ks m r, lm_inv cols m -> right_kind cols = KSet ->
+  forallb key_hashable ks = true ->
+  let m' := insert_each cols m r ks in
+  lm_inv cols m' /\ bsoc m m' /\
+  forall r' k', mrel m' r' k' = mrel m r' k' || (Z.eqb r r' && memb vals_eqb k' ks).
+Proof.
+  induction ks as [|k ks IH]; intros m r I Hk Hh; cbn [insert_each].
+  - split; [exact I|split; [apply bsoc_refl|]]. intros. cbn. now rewrite andb_false_r, orb_false_r.
+  - cbn in Hh. apply andb_true_iff in Hh. destruct Hh as [Hh1 Hh2].
+    destruct (lm_insert cols m r k) as [m1 o] eqn:E. cbn [fst].
+    destruct (lm_insert_spec cols m r k m1 o I E) as [I1 [S1 [RD RR]]].
+    assert (Ho : o = Done).
+    { destruct o; [reflexivity|]. destruct RR as [X _]; [discriminate|congruence]. }
+    destruct (RD Ho) as [_ R1].
+    destruct (IH m1 r I1 Hk Hh2) as [I2 [S2 R2]].
+    split; [exact I2|split; [eapply bsoc_trans; eauto|]].
+    intros r' k'. rewrite R2, R1, Hk. cbn [memb is_single negb andb].
+    destruct (Z.eqb r r') eqn:Er; cbn [andb]; [|now rewrite !orb_false_r].
+    apply Z.eqb_eq in Er. subst r'.
+    destruct (vals_eqb k k'); cbn; [now rewrite orb_true_r|reflexivity].
+Qed.
+
+Lemma memb_filter : forall {A} (eqb : A -> A -> bool) (f : A -> bool) l a, equiv eqb ->
+  (forall x y, eqb x y = true -> f x = f y) ->
+  memb eqb a (filter f l) = memb eqb a l && f a.
+Proof.
+  intros A eqb f l a E Hf. induction l as [|y l IH]; cbn; [reflexivity|].
+  destruct (f y) eqn:Fy; cbn.
+  - destruct (eqb y a) eqn:Eya; [|exact IH]. now rewrite <- (Hf y a Eya), Fy.
+  - destruct (eqb y a) eqn:Eya; [|exact IH]. rewrite <- (Hf y a Eya), Fy, andb_false_r.
+    rewrite IH, <- (Hf y a Eya), Fy. apply andb_false_r.
+Qed.
+
+Lemma memb_diff : forall a b k, memb vals_eqb k (diff_keys a b) = memb vals_eqb k a && negb (memb vals_eqb k b).
+Proof.
+  intros a b k. unfold diff_keys.
+  apply (memb_filter vals_eqb (fun k0 => negb (memb vals_eqb k0 b))); [apply key_equiv|].
+  intros x y E. f_equal. apply (memb_congr vals_eqb key_equiv). exact E.
+Qed.
+
+(* keys of a CONTAINS mapping are always hashable *)
+Lemma extract_hashable : forall v, hashable v = true -> hashable (extract v) = true.
+Proof. destruct v; cbn; auto. Qed.
+
+Lemma dedup_subset : forall {A} (eqb : A -> A -> bool) l x, In x (dedup eqb l) -> In x l.
+Proof.
+  intros A eqb. induction l as [|y l IH]; cbn; intros x H; [exact H|].
+  destruct H as [H|H]; [auto|]. apply filter_In in H. right. apply IH. tauto.
+Qed.
+
+Lemma contains_group_hashable : forall c v x, In x (contains_group c v) -> hashable x = true.
+Proof.
+  intros c v x H. unfold contains_group in H.
+  match type of H with In x (match ?G with _ => _ end) => destruct G as [g|] end; [|contradiction].
+  destruct (forallb hashable g) eqn:Hg; [|contradiction].
+  apply in_map_iff in H. destruct H as [y [<- Hy]]. apply extract_hashable.
+  apply dedup_subset in Hy. rewrite forallb_forall in Hg. auto.
+Qed.
+
+Lemma product_hashable : forall gs k, (forall g x, In g gs -> In x g -> hashable x = true) ->
+  In k (product gs) -> key_hashable k = true.
+Proof.
+  induction gs as [|g gs IH]; cbn; intros k Hg H.
+  - destruct H as [<-|[]]. reflexivity.
+  - apply in_flat_map in H. destruct H as [v [Hv H]]. apply in_map_iff in H. destruct H as [k0 [<- Hk0]].
+    cbn. rewrite (Hg g v); auto. cbn. apply IH; auto. intros g' x Hg' Hx. eapply Hg; eauto.
+Qed.
+
+Lemma zip_groups_hashable : forall cols cells g x, In g (zip_groups cols cells) -> In x g -> hashable x = true.
+Proof.
+  induction cols as [|c cols IH]; destruct cells as [|v cells]; cbn; intros g x Hg Hx; try contradiction.
+  destruct Hg as [<-|Hg]; [eapply contains_group_hashable; eauto|eapply IH; eauto].
+Qed.
+
+Lemma contains_keys_hashable : forall cols cells, uses_contains cols = true ->
+  forallb key_hashable (new_keys cols cells) = true.
+Proof.
+  intros cols cells H. unfold new_keys. rewrite H. apply forallb_forall. intros k Hk.
+  apply dedup_subset in Hk. eapply product_hashable; [|exact Hk]. apply zip_groups_hashable.
+Qed.
+
+Lemma keys_of_contains : forall cols cells, uses_contains cols = true -> keys_of cols cells = new_keys cols cells.
+Proof.
+  intros cols cells H. unfold keys_of. pose proof (contains_keys_hashable cols cells H) as Hh.
+  induction (new_keys cols cells) as [|k l IH]; cbn in *; [reflexivity|].
+  apply andb_true_iff in Hh. destruct Hh as [H1 H2]. rewrite H1. f_equal. auto.
+Qed.
+
+Lemma forallb_filter : forall {A} (f g : A -> bool) l, forallb f l = true -> forallb f (filter g l) = true.
+Proof.
+  intros A f g. induction l as [|x l IH]; cbn; intros H; [reflexivity|].
+  apply andb_true_iff in H. destruct H as [H1 H2]. destruct (g x); cbn; [rewrite H1|]; auto.
+Qed.
+
+Lemma single_mapped : forall cols m r, lm_inv cols m -> right_kind cols = KSingle ->
+  mapped_keys m r = [] \/ exists o, mapped_keys m r = [o].
+Proof.
+  intros cols m r [[_ [Ws _]] _] Hk. unfold mapped_keys, items_of. rewrite Hk in Ws.
+  destruct (dget Z.eqb (fwd m) r) as [b|] eqn:E; [|left; reflexivity].
+  right. exact (Ws eq_refl r b E).
+Qed.
+
+Lemma keys_of_simple : forall cols cells, uses_contains cols = false ->
+  keys_of cols cells = if key_hashable (map extract cells) then [map extract cells] else [].
+Proof. intros cols cells H. unfold keys_of, new_keys. rewrite H. cbn. reflexivity. Qed.
+
+Lemma update_record_spec : forall cols m r cells, lm_inv cols m ->
+  let m' := fst (update_record cols m r cells) in
+  lm_inv cols m' /\ bsoc m m' /\
+  forall r' k', mrel m' r' k' = if Z.eqb r r' then memb vals_eqb k' (keys_of cols cells) else mrel m r' k'.
+Proof.
+  intros cols m r cells I. unfold update_record.
+  destruct (right_kind_cases cols) as [[Hk Hu]|[Hk Hu]]; rewrite Hu.
+  - (* SimpleLookupMapping *)
+    rewrite (keys_of_simple cols cells Hu). set (new_key := map extract cells).
+    assert (Hins : forall m1 o, lm_insert cols m r new_key = (m1, o) ->
+              lm_inv cols m1 /\ bsoc m m1 /\
+              (o = Done -> key_hashable new_key = true /\ forall r' k', mrel m1 r' k' =
+                 if Z.eqb r r' then vals_eqb new_key k' else mrel m r' k') /\
+              (o <> Done -> key_hashable new_key = false /\ forall r' k', mrel m1 r' k' = mrel m r' k')).
+    { intros m1 o E. destruct (lm_insert_spec cols m r new_key m1 o I E) as [I1 [S1 [RD RR]]].
+      split; [exact I1|split; [exact S1|split; [|exact RR]]].
+      intros Ho. destruct (RD Ho) as [Hh R1]. split; [exact Hh|]. intros r' k'. rewrite R1, Hk. cbn.
+      now rewrite orb_false_r. }
+    destruct (single_mapped cols m r I Hk) as [Hm|[old Hm]]; rewrite Hm.
+    + assert (Hno : forall k', mrel m r k' = false) by (intros; unfold mrel; now rewrite Hm).
+      destruct (lm_insert cols m r new_key) as [m1 o] eqn:E.
+      destruct (Hins m1 o eq_refl) as [I1 [S1 [RD RR]]].
+      destruct o as [|e]; cbn [fst].
+      * destruct (RD eq_refl) as [Hh R1]. rewrite Hh. split; [exact I1|split; [exact S1|]].
+        intros r' k'. rewrite R1. destruct (Z.eqb r r'); [|reflexivity]. cbn. now destruct (vals_eqb new_key k').
+      * destruct RR as [Hh R1]; [discriminate|]. rewrite Hh. split; [exact I1|split; [exact S1|]].
+        intros r' k'. rewrite R1. destruct (Z.eqb r r') eqn:Er; [|reflexivity].
+        apply Z.eqb_eq in Er. subst. apply Hno.
+    + assert (Hold : forall k', mrel m r k' = vals_eqb old k').
+      { intros. unfold mrel. rewrite Hm. cbn. now destruct (vals_eqb old k'). }
+      destruct (vals_eqb new_key old) eqn:Eno; cbn [fst].
+      * assert (Hh : key_hashable new_key = true).
+        { rewrite (key_hashable_congr new_key old Eno). apply (mrel_hashable cols m r old I).
+          rewrite Hold. apply vals_eqb_refl. }
+        rewrite Hh. split; [exact I|split; [apply bsoc_refl|]].
+        intros r' k'. destruct (Z.eqb r r') eqn:Er; [|reflexivity]. apply Z.eqb_eq in Er. subst r'.
+        rewrite Hold. cbn. rewrite <- (eq_trans_f vals_eqb key_equiv new_key old k' Eno).
+        now destruct (vals_eqb new_key k').
+      * destruct (lm_insert cols m r new_key) as [m1 o] eqn:E.
+        destruct (Hins m1 o eq_refl) as [I1 [S1 [RD RR]]].
+        destruct o as [|e]; cbn [fst].
+        -- destruct (RD eq_refl) as [Hh R1]. rewrite Hh. split; [exact I1|split; [exact S1|]].
+           intros r' k'. rewrite R1. destruct (Z.eqb r r'); [|reflexivity]. cbn. now destruct (vals_eqb new_key k').
+        -- destruct RR as [Hh R1]; [discriminate|]. rewrite Hh.
+           destruct (lm_remove cols m1 r old) as [m2 o2] eqn:E2. cbn [fst].
+           destruct (lm_remove_spec cols m1 r old m2 o2 I1 E2) as [I2 [S2 R2]].
+           split; [exact I2|split; [eapply bsoc_trans; eauto|]].
+           intros r' k'. rewrite R2, R1. destruct (Z.eqb r r') eqn:Er; cbn; [|now rewrite andb_true_r].
+           apply Z.eqb_eq in Er. subst r'. rewrite Hold. now destruct (vals_eqb old k').
+  - (* ContainsLookupMapping *)
+    rewrite (keys_of_contains cols cells Hu). cbn [fst].
+    set (nk := new_keys cols cells). set (ok := mapped_keys m r).
+    destruct (remove_each_spec cols (diff_keys ok nk) m r I) as [I1 [S1 R1]].
+    destruct (insert_each_spec cols (diff_keys nk ok) (remove_each cols m r (diff_keys ok nk)) r I1 Hk)
+      as [I2 [S2 R2]].
+    { apply forallb_filter. apply contains_keys_hashable. exact Hu. }
+    split; [exact I2|split; [eapply bsoc_trans; eauto|]].
+    intros r' k'. rewrite R2, R1, !memb_diff.
+    destruct (Z.eqb r r') eqn:Er; cbn [andb negb]; [|now rewrite andb_true_r, orb_false_r].
+    apply Z.eqb_eq in Er. subst r'. change (mrel m r k') with (memb vals_eqb k' ok).
+    now destruct (memb vals_eqb k' ok), (memb vals_eqb k' nk).
+Qed.
+
+Lemma remove_row_id_spec : forall cols m r, lm_inv cols m ->
+  let m' := fst (remove_row_id cols m r) in
+  lm_inv cols m' /\ bsoc m m' /\
+  forall r' k', mrel m' r' k' = if Z.eqb r r' then false else mrel m r' k'.
+Proof.
+  intros cols m r I. unfold remove_row_id. cbn [fst].
+  destruct (remove_each_spec cols (mapped_keys m r) m r I) as [I1 [S1 R1]].
+  split; [exact I1|split; [exact S1|]].
+  intros r' k'. rewrite R1. destruct (Z.eqb r r') eqn:Er; cbn; [|now rewrite andb_true_r].
+  apply Z.eqb_eq in Er. subst r'. unfold mrel. now destruct (memb vals_eqb k' (mapped_keys m r)).
 Qed.
